@@ -1660,6 +1660,9 @@ def translate_frame(src):
         missing.append("from_usart_frame")
         out = ("/-- the part of `Frame::from_usart_frame` after the COBS decoding could not be translated on this run (%s): this is the hand-written model's -/\n"
                "def fromUsartBody %s :=\n  fromUsartModelBody fr\n" % (str(ex).replace("-/", ""), sig))
+    ctext, cmissing = translate_can(src)
+    missing = missing + cmissing
+    out = out + "\n" + ctext
     text = ("import RossModel.Spec.SrcPrims\n"
             "/-! GENERATED by bin/extract (bin/rust2lean.py) from src/frame.rs of the repository under verification — do not edit.\n"
             "Every run of a check regenerates this file from /repo's working tree before building the theorems. -/\n"
@@ -1668,6 +1671,96 @@ def translate_frame(src):
             "def fromUsart (enc : List UInt8) : Res FErr Frame :=\n  match Cobs.decodeBody enc with\n  | none => .err .cobsError\n  | some fr => fromUsartBody fr\n"
             "\n/-- not translated on this run -/\ndef frameNotTranslated : List String := [" + ", ".join('"%s"' % x for x in missing) + "]\n\nend Ross.Src\n")
     return text, missing
+
+
+class CanTranslator(FrameTranslator):
+    """translates `Frame::from_bxcan_frame` over the model's `CanFrame` (`c`): `frame.id()` is `Id::Extended(id)` exactly when `c.ext`
+    (`id.as_raw()` = `c.id`), `frame.data()` is `Some(..)` exactly when `!c.rtr` (the bytes are `c.data`), `frame.dlc()` is `c.dlc`;
+    the array fill loop from the frame's bytes is `Prim.fill8 c.data 0 n`; reading the filled array at a constant index cannot panic."""
+
+    def num(self, e, env, k):
+        if e[0] == "call" and e[1] == ("path", ["frame", "dlc"]) and not e[2]:
+            return k("c.dlc", "u8")
+        if e[0] == "call" and e[1][0] == "path" and len(e[1][1]) == 2 and e[1][1][1] == "as_raw" and not e[2] and env.get(e[1][1][0], (None, None))[1] == "extid":
+            return k("c.id", "u32")
+        if e[0] == "index" and e[1][0] == "path" and len(e[1][1]) == 1 and env.get(e[1][1][0], (None, None))[1] == "array8" and e[2][0] == "num" and e[2][1] < 8:
+            return k("(%s.getD %d 0).toNat" % (env[e[1][1][0]][0], e[2][1]), "u8")
+        if e[0] == "as" and e[1] in ("u16", "u8"):
+            def k1(a, ta):
+                if ta == "u32" or (ta in ("usize",) and e[1] == "u16"):
+                    return k("(%s %% %d)" % (a, 65536 if e[1] == "u16" else 256), e[1])
+                return FrameTranslator.num(self, ("as", e[1], ("path", ["__v"])), {"__v": (a, ta)}, k)
+            return self.num(e[2], env, k1)
+        return super().num(e, env, k)
+
+    def result(self, e, env, ind):
+        if e[0] == "call" and e[1] == ("path", ["Err"]):
+            return "%s.err %s" % (ind, self.err(e))
+        if e[0] == "call" and e[1] == ("path", ["Ok"]):
+            return FrameTranslator.stmts(self, [("tail", e)], env, ind)
+        raise Untranslatable("result")
+
+    def stmts(self, ss, env, ind):
+        if not ss:
+            raise Untranslatable("fell off the end")
+        s, rest = ss[0], ss[1:]
+        if s[0] == "if" and s[1][0] == "iflet" and not rest and s[3] is not None:
+            _, ctor, v, scrut = s[1]
+            if ctor == "Id::Extended" and scrut == ("call", ("path", ["frame", "id"]), []):
+                env2 = dict(env)
+                env2[v] = (v, "extid")
+                return "%sif c.ext then\n%s\n%selse\n%s" % (ind, self.stmts(s[2], env2, ind + "  "), ind, self.stmts(s[3], env, ind + "  "))
+            if ctor == "Some" and scrut == ("call", ("path", ["frame", "data"]), []):
+                env2 = dict(env)
+                env2[v] = (v, "candata")
+                return "%sif (!c.rtr) then\n%s\n%selse\n%s" % (ind, self.stmts(s[2], env2, ind + "  "), ind, self.stmts(s[3], env, ind + "  "))
+            raise Untranslatable("if let " + ctor)
+        if s[0] == "if" and s[1][0] == "cond" and not rest and s[3] is not None:
+            return self.cond(s[1][1], env, lambda: self.stmts(s[2], env, ind + "  "), lambda: self.stmts(s[3], env, ind + "  "), ind)
+        if s[0] == "let":
+            e = s[2]
+            if e[0] == "call" and e[1] == ("path", ["__fill8c"]) and len(e[2]) == 2 and e[2][0][0] == "path" and env.get(e[2][0][1][0], (None, None))[1] == "candata":
+                def kf(n, tn):
+                    if tn not in ("u8", "usize"):
+                        raise Untranslatable("fill loop over a length of type " + tn)
+                    env2 = dict(env)
+                    env2[s[1]] = (s[1], "array8")
+                    return "(Prim.fill8 c.data 0 %s).bind fun %s =>\n%s" % (n, s[1], self.stmts(rest, env2, ind))
+                return ind + self.num(e[2][1], env, kf).lstrip()
+            if e[0] == "call" and e[1][0] == "path" and e[1][1][0] in ("FrameId::LastFrameId", "FrameId::CurrentFrameId") and len(e[2]) == 1:
+                def kv(a, ta):
+                    if ta not in ("u16", "int"):
+                        raise Untranslatable("frame id of type " + ta)
+                    env2 = dict(env)
+                    env2[s[1]] = (s[1], "frameid")
+                    return "%slet %s_last := %s\n%slet %s := %s\n%s" % (ind, s[1], "true" if e[1][1][0].endswith("LastFrameId") else "false", ind, s[1], a, self.stmts(rest, env2, ind))
+                return ind + self.num(e[2][0], env, kv).lstrip()
+        if s[0] in ("tail", "return") and not rest and s[1][0] == "call" and s[1][1] == ("path", ["Err"]):
+            return "%s.err %s" % (ind, self.err(s[1]))
+        return super().stmts(ss, env, ind)
+
+
+def translate_can(src):
+    sig = "(c : CanFrame) : Res FErr Frame"
+    try:
+        m = re.search(r"pub fn from_bxcan_frame\s*\(\s*frame:\s*BxFrame\s*\)\s*->\s*Result<Self,\s*FrameError>\s*\{", src)
+        if not m:
+            raise Untranslatable("signature")
+        i, depth = m.end() - 1, 0
+        for j in range(i, len(src)):
+            depth += src[j] == "{"
+            depth -= src[j] == "}"
+            if depth == 0:
+                break
+        body = re.sub(r"//[^\n]*", "", src[i:j + 1])
+        body = re.sub(r"let\s+mut\s+(\w+)\s*=\s*\[0u8;\s*8\];\s*for\s+(\w+)\s+in\s+0\.\.\(?(\w+)\s+as\s+usize\)?\s*\{\s*\1\[\2\]\s*=\s*(\w+)\[\2\];\s*\}",
+                      lambda mm: "let %s = __fill8c(%s, %s);" % (mm.group(1), mm.group(4), mm.group(3)), body)
+        text = CanTranslator().stmts(BitParser(tokenize2(body)).block(), {}, "  ")
+        text = "\n".join(l if l.startswith(" ") else "  " + l for l in text.split("\n"))
+        return ("/-- translated from `Frame::from_bxcan_frame` in src/frame.rs over the model's view of a `bxcan::Frame` -/\ndef fromCan %s :=\n%s\n" % (sig, text)), []
+    except (Untranslatable, KeyError, TypeError, IndexError) as ex:
+        return ("/-- `Frame::from_bxcan_frame` could not be translated on this run (%s): this is the hand-written model's definition -/\ndef fromCan %s :=\n  Ross.fromCan c\n" % (str(ex).replace("-/", ""), sig)), ["from_bxcan_frame"]
+
 
 
 if __name__ == "__main__":
